@@ -131,11 +131,12 @@ class SpecArray(object):
 
         return (left + right) / df
 
-    def _peak(self, arr):
+    def _peak(self, arr, mask=False):
         """Returns indices of largest peaks along freq dim in a ND-array.
 
         Args:
             - arr (SpecArray): 1D spectra (integrated over directions)
+            - mask (bool): return the boolean mask of the peaks instead of the index.
 
         Returns:
             - ipeak (SpecArray): indices for slicing arr at the frequency peak
@@ -160,6 +161,8 @@ class SpecArray(object):
             < 0
         )
         ispeak = np.logical_and(fwd, bwd)
+        if mask:
+            return ispeak
         return arr.where(ispeak, 0).argmax(dim=attrs.FREQNAME).astype(int)
 
     def _my_name(self):
@@ -618,7 +621,9 @@ class SpecArray(object):
         fp = self.fp(smooth=smooth)
         alpha_pm = 0.3125 * self.hs() ** 2 * fp**4
         epm_fp = alpha_pm * fp**-5 * 0.2865048
-        gamma = self.oned().max(dim=attrs.FREQNAME) / epm_fp
+        ef = self.oned()
+        epeak = ef.where(self._peak(ef, mask=True), 0).max(dim=attrs.FREQNAME)
+        gamma = epeak / epm_fp
         if scaled:
             # polynomial approximation for gamma
             p = [0.0378375, -0.13543292, 0.64087366, 0.32524949, 0.12974958]
